@@ -3,3 +3,7 @@ import PycommProps.C05
 #print axioms Pycomm.C05.typeword_atomic
 #print axioms Pycomm.C05.alias_flag
 #print axioms Pycomm.C05.upload_complete
+#print axioms Pycomm.C05.record_roundtrip
+#print axioms Pycomm.C05.records_roundtrip
+#print axioms Pycomm.C05.next_instance_after_page
+#print axioms Pycomm.C05.template_roundtrip
